@@ -182,6 +182,7 @@ var corpus = []corpusCase{
 	{"C01b", "C01b_fs_access_path_cut", [][2]int{{22, 25}}, "path", true},
 	{"C01c", "C01c_fs_nontermination", [][2]int{{23, 28}}, "hang", true},
 	{"C01d", "C01d_nested_closure_seen_key", [][2]int{{22, 38}}, "ebe", false},
+	{"C01e", "C01e_fs_summary_edge_missing", [][2]int{{24, 42}}, "", true},
 }
 
 func runCorpus(rep *lib.Report) {
@@ -311,6 +312,7 @@ func main() {
 		// hypotheses of the model run per (field-sensitive, case id): LassoFree, EntryBeforeExit, no access-path cut
 		type hyps struct{ lassoFree, ebe, noPathCut, known, idealFindsSink bool }
 		hyp := map[bool]map[int]hyps{false: {}, true: {}}
+		var fs0got map[[2]int]bool // what the field-insensitive eager run reported
 		var pairs []mugo.Pair
 		for pr := range gt {
 			pairs = append(pairs, pr)
@@ -352,6 +354,9 @@ func main() {
 					continue
 				}
 				got := res.IDPairs()
+				if !cfg.FieldSensitive && !cfg.OnDemand && !rw {
+					fs0got = got
+				}
 				// (1) model correspondence on eager configurations
 				if !cfg.OnDemand && !rw {
 					d, ms, missing := modelCheck(rep, res, tag)
@@ -417,6 +422,12 @@ func main() {
 						// same dumped graph, the real key loses it: findings F14 / C01a, keyed by that shape
 						key = "miss:seen-key-ignores-entry"
 						rep.Count("known-shape:seen-key-ignores-entry")
+					} else if cfg.FieldSensitive && in && fs0got[[2]int{pr.Source, pr.Sink}] {
+						// the model run explored every valid path of the field-sensitive graph (all flags hold,
+						// theorem taint_sound_of_flags) and the field-insensitive run reports the flow: the path
+						// is missing from the field-sensitive summary graph itself (finding C01e, intra layer)
+						key = "miss:field-sensitive:summary-graph-lacks-path"
+						rep.Count("known-shape:field-sensitive-summary-graph-lacks-path")
 					} else if cfg.FieldSensitive && h.known && !h.noPathCut {
 						// one defect, many inputs: keyed by the shape the model exhibits (finding C01b)
 						key = "miss:field-sensitive:access-path-cut"
